@@ -1,8 +1,13 @@
 """python -m vf.compile_many <spec.json>: compile a list of definition programs in THIS process
 (separate from the checker: its own PYTHONHASHSEED, working directory, source and output paths).
-spec: {"cwd": dir, "cases": [{"id":..., "files": {...}, "root": "root.yaml", "src": dir, "out": dir, "name": str, "kw": {...}}]}"""
+spec: {"cwd": dir, "cases": [{"id":..., "files": {...}, "root": "root.yaml", "src": dir, "out": dir, "name": str, "kw": {...}}],
+       "relative": bool   - root file and output directory are named by relative paths,
+       "shared_out": dir  - every closure is compiled into this ONE directory (all sources are written first, so every
+                            definition file is older than whatever an earlier compilation left there); the outputs are
+                            copied to the case's own directory afterwards}"""
 import json
 import os
+import shutil
 import sys
 
 
@@ -13,24 +18,36 @@ def main():
     from vf import defx, valx
 
     res = {}
+    roots = {}
     for c in spec["cases"]:
         os.makedirs(c["src"], exist_ok=True)
         os.makedirs(c["out"], exist_ok=True)
         prog = defx.Program(c["files"], c.get("root", "root.yaml"))
-        root = prog.write(c["src"])
+        roots[str(c["id"])] = prog.write(c["src"])
+    shared = spec.get("shared_out")
+    if shared:
+        os.makedirs(shared, exist_ok=True)
+    for c in spec["cases"]:
+        root = roots[str(c["id"])]
+        own_out = c["out"]
+        out = shared or own_out
         if spec.get("relative"):
             # the root file named by a relative path with a directory part, from the directory above the sources
             os.chdir(os.path.dirname(c["src"]))
             root = os.path.relpath(root)
-            c = dict(c, out=os.path.relpath(c["out"]))  # ... and the output directory by a relative path as well
+            out = os.path.relpath(out)  # ... and the output directory by a relative path as well
         try:
-            valx.compile_file(root, c["name"], c["out"], black=c.get("black", True), python=True, javascript=True, matlab=True, c_lang=True,
+            valx.compile_file(root, c["name"], out, black=c.get("black", True), python=True, javascript=True, matlab=True, c_lang=True,
                               info=True, combined=True, **c.get("kw", {}))
             res[str(c["id"])] = "ok"
         except Exception as e:
             res[str(c["id"])] = f"{type(e).__name__}: {str(e)[:200]}"
         finally:
             os.chdir(spec["cwd"])
+        if shared:
+            for fn in os.listdir(shared):
+                if fn.startswith(c["name"]):
+                    shutil.copy2(os.path.join(shared, fn), os.path.join(own_out, fn))
     print(json.dumps(res))
 
 
